@@ -1,4 +1,5 @@
 import binascii
+from copy import deepcopy
 from datetime import datetime
 from datetime import timedelta
 from functools import wraps
@@ -25,7 +26,9 @@ class BaseType(object):
         self.default = value
 
     def get_default(self):
-        return self.default
+        # A copy, as the caller may modify the value it is given (the
+        # empty list of a SEQUENCE OF).
+        return deepcopy(self.default)
 
     def has_default(self):
         return self.default is not None
